@@ -27,16 +27,18 @@ CONSTANTS Mds0, MdsUp,            \* initial datagram size, sizes it may be rais
           RecFloorOn,   \* FALSE: calculateRecoveryWindow without the minimum-window floor  (:1019, :1039)
           MinBpsOn,     \* FALSE: bandwidthForPacer without the minBps floor                (:665-670)
           PruneOn,      \* FALSE: no RemoveObsoletePackets                                  (:632)
-          MdsClampOn    \* FALSE: SetMaxDatagramSize keeps the old window                   (:499-507)
+          MdsClampOn,   \* FALSE: SetMaxDatagramSize keeps the old window                   (:499-507)
+          PacerMdsOn    \* FALSE: SetMaxDatagramSize does not hand the new size to the pacer (:508)
 
 VARIABLES lastPn, out, largest, mds,                                  \* Env_Quic
           mode, rec, cwnd, rwnd, full, initW, minW, maxW,             \* bbrSender
           lastSent, roundEnd, endRec, bif,
+          pmds,                                                        \* Pacer.maxDatagramSize
           qp,                                                          \* sampler.connectionStateMap: present packet numbers
           nEv, mon, hist
 
 vars == <<lastPn, out, largest, mds, mode, rec, cwnd, rwnd, full, initW, minW, maxW,
-          lastSent, roundEnd, endRec, bif, qp, nEv, mon, hist>>
+          lastSent, roundEnd, endRec, bif, pmds, qp, nEv, mon, hist>>
 
 Cfg == [minPkts |-> MinPkts, maxPkts |-> MaxPkts, minBps |-> MinBps, thresh |-> 3, slotMul |-> 1, slotAdd |-> SlotAdd]
 
@@ -65,7 +67,7 @@ Send(gap, bytes, retrans, pr) ==
         /\ mon' = MonStep(mon, e, 0)
         /\ hist' = Append(hist, <<"send", gap, bytes, IF retrans THEN 1 ELSE 0>>)
   /\ nEv' = nEv + 1
-  /\ UNCHANGED <<largest, mds, mode, rec, cwnd, rwnd, full, initW, minW, maxW, roundEnd, endRec>>
+  /\ UNCHANGED <<largest, mds, mode, rec, cwnd, rwnd, full, initW, minW, maxW, roundEnd, endRec, pmds>>
 
 \* ---------------- OnCongestionEventEx ---------------------------------------------
 \* lost sets QUIC can report together with the acked set A
@@ -145,7 +147,7 @@ Cong(A, L) ==
         /\ hist' = Append(hist, <<"cong", SortSeq(SetToSeq(aPns), LAMBDA x, y : x < y),
                                   SortSeq(SetToSeq({l[1] : l \in L}), LAMBDA x, y : x < y)>>)
   /\ nEv' = nEv + 1
-  /\ UNCHANGED <<lastPn, mds, initW, minW, maxW, lastSent>>
+  /\ UNCHANGED <<lastPn, mds, initW, minW, maxW, lastSent, pmds>>
 
 \* ---------------- SetMaxDatagramSize ------------------------------------------------
 Scale(w, old, new) == IF old = new THEN w ELSE (w * new) \div old      \* :408-413
@@ -162,25 +164,42 @@ SetMDS(v, pr) ==
          e      == [ev |-> "SetMDS", scn |-> 0, mds |-> v,
                     cwnd |-> (IF mode = "PROBE_RTT" THEN minW2 ELSE IF rec # "NOT" THEN Min2(cw2, rw2) ELSE cw2),
                     bw |-> PacerBw(pr), slots |-> Slots(qp)]
-     IN /\ mds' = v /\ minW' = minW2 /\ initW' = initW2 /\ maxW' = maxW2 /\ cwnd' = cw2 /\ rwnd' = rw2
+     IN /\ pmds' = (IF PacerMdsOn THEN v ELSE mds)        \* b.pacer.SetMaxDatagramSize(s)
+        /\ mds' = v /\ minW' = minW2 /\ initW' = initW2 /\ maxW' = maxW2 /\ cwnd' = cw2 /\ rwnd' = rw2
         /\ mon' = MonStep(mon, e, 0)
   /\ nEv' = nEv + 1
   /\ hist' = Append(hist, <<"mds", v>>)
   /\ UNCHANGED <<lastPn, out, largest, mode, rec, full, lastSent, roundEnd, endRec, bif, qp>>
 
+\* ---------------- the send loop asks the pacer (pacing-limited sending) ------------------------
+\* The token bucket itself is Sys_Brutal's (C11); here only what couples it to the sender: HasPacingBudget compares the
+\* budget with the SENDER's datagram size (bbr_sender.go:439-441), TimeUntilSend / the announced time are computed by the
+\* pacer for ITS datagram size (pacer.go:62-76).  budget = any value the bucket may hold right now.
+Pace(budget) ==
+  /\ nEv < MaxEv
+  /\ LET has   == budget >= mds
+         zero  == budget >= pmds              \* TimeUntilSend() = 0: "send immediately"
+         e     == [ev |-> "Pace", scn |-> 0, t |-> 0, can |-> SetSum(out) < GetCwnd(mode, cwnd, rwnd, rec),
+                   budget |-> has, dNs |-> IF has \/ zero THEN 0 ELSE 1,
+                   okAt |-> has \/ (~zero /\ pmds >= mds)]       \* at the announced time the bucket holds pmds
+     IN mon' = MonStep(mon, e, 0)
+  /\ UNCHANGED <<lastPn, out, largest, mds, mode, rec, cwnd, rwnd, full, initW, minW, maxW,
+                 lastSent, roundEnd, endRec, bif, pmds, qp, nEv, hist>>
+
 Init == /\ lastPn = -1 /\ out = {} /\ largest = -1 /\ mds = Mds0
         /\ mode = "STARTUP" /\ rec = "NOT" /\ full = FALSE
         /\ initW = InitPkts * Mds0 /\ minW = MinPkts * Mds0 /\ maxW = MaxPkts * Mds0
         /\ cwnd = InitPkts * Mds0 /\ rwnd = MaxPkts * Mds0
-        /\ lastSent = -1 /\ roundEnd = -1 /\ endRec = -1 /\ bif = 0
+        /\ lastSent = -1 /\ roundEnd = -1 /\ endRec = -1 /\ bif = 0 /\ pmds = Mds0
         /\ qp = {} /\ nEv = 0 /\ hist = <<>>
-        /\ mon = MonStart(Cfg, Mds0)
+        /\ mon = [MonStart(Cfg, Mds0) EXCEPT !.measure = TRUE, !.warm = 1]     \* the deadlock clause is a verdict on this path
 
 \* the pacing-rate estimate is an arbitrary value of PrSet at every read (calculatePacingRate abstracted)
 Next == \/ \E gap \in {1, 2} : \E b \in (IF SmallOn THEN {1, mds} ELSE {mds}) : \E p \in PrSet : Send(gap, b, TRUE, p)
         \/ \E p \in PrSet : Send(1, 1, FALSE, p)
         \/ \E A \in SUBSET out : \E L \in LostChoices(A) : Cong(A, L)
         \/ \E v \in MdsUp : \E p \in PrSet : SetMDS(v, p)
+        \/ \E b \in {0, Mds0, mds} : Pace(b)
 
 Spec == Init /\ [][Next]_vars
 
@@ -189,5 +208,5 @@ NoHardViolation == \A v \in mon.viol : v.clause \in DriftClauses
 \* a behaviour ends at the event bound or when every packet number is used up and nothing is in flight
 PrintScn == (nEv = MaxEv \/ (out = {} /\ lastPn = MaxPn)) => PrintT(<<"SCN", ToJson([steps |-> hist])>>)
 View == <<lastPn, out, largest, mds, mode, rec, cwnd, rwnd, full, initW, minW, maxW,
-          lastSent, roundEnd, endRec, bif, qp, mon>>
+          lastSent, roundEnd, endRec, bif, pmds, qp, mon>>
 =============================================================================
